@@ -165,7 +165,7 @@ def run_level2(ns, sources, sensors, field="B", sumup=False, squeeze=False, pixe
                               output=output, in_out=in_out)
 
 
-def check_structure(ns, sources, sensors, field="B", sumup=False, pixel_agg=None):
+def check_structure(ns, sources, sensors, field="B", sumup=False, pixel_agg=None, restore_check=False):
     """runs the real getBH_level2 term-exactly and compares every element with the prescribed term.
     returns (n_elements, list of mismatch messages)"""
     objs = []
@@ -177,7 +177,7 @@ def check_structure(ns, sources, sensors, field="B", sumup=False, pixel_agg=None
     M = max(len(o._position) for o in objs)
     msgs = []
     r = restored(objs, snap)
-    if r:
+    if r and restore_check:  # the restore of tiled paths is C08's property: not reported under the value properties C03-C07
         msgs.append("C08: " + r)
     L = 1 if sumup else len(sources)
     K = len(sensors)
